@@ -125,7 +125,7 @@ func propC13(c *Ctx, r *Report) {
 		sc := &Scenario{Paths: map[string]AVal{"fat2.Transaction.Conversion": cInt(dest)}, Calls: map[string]AVal{"ValidData": nilVal}, MaxDepth: 0}
 		st := newSCCP(c, sc).run(vp, nil, 0)
 		r.Scen++
-		le := loopOver(st, "fat2.TransactionBatch.Transactions", 1)
+		le := loopOverFam(c, sc, vp, st, "fat2.TransactionBatch.Transactions", 1)
 		want := "next"
 		if dest == tick["PEG"] {
 			want = "err:fresh"
